@@ -157,7 +157,7 @@ def history_case(ctx, rep, rng, idx):
         elif base_kind == "ref":
             members = c06.gen_members(rng)
             feature = rng.choice([None, None, "partial_vectors", "packpos", "zero_folder", "partial_crc"])
-            feature = rng.choice([None, None, "partial_vectors"])
+            feature = rng.choice([None, None, "partial_vectors", "no_substreams"])
             lay = c06.gen_layout(rng, members, feature)
             lay["header"] = "raw" if header_mode == "raw" else lay.get("header", "raw")
             feats = c06.classify(members, lay)
